@@ -32,6 +32,48 @@ def textFns : List String :=
 def textAll (a b : Str) : Json :=
   Json.mkObj (textFns.map fun fn => (fn, textOp fn a b))
 
+open Dispatch in
+def sideOf (j : Json) (k : String) : Except String Side := do
+  (← arrF j k).mapM fun v => match v with
+    | .null => pure none
+    | x => do pure (some (← x.getNat?))
+
+open Dispatch in
+def encRefOut : RefOut → Json
+  | .ok => "ok" | .tableNotFound => "lib:TableNotFoundError" | .dbmlError => "lib:DBMLError"
+  | .indexError => "internal"
+
+open Dispatch in
+def dispatchOp (j : Json) : Except String Json := do
+  let what ← (← j.getObjVal? "what").getStr?
+  match what with
+  | "render" =>
+    let k ← (← j.getObjVal? "kind").getStr?
+    let some kind := EKind.ofString k | throw s!"kind {k}"
+    let handled ← (← arrF j "handled").mapM fun v => do
+      let s ← v.getStr?
+      match EKind.ofString s with | some x => pure x | none => throw s!"kind {s}"
+    let unset ← (← arrF j "unset").mapM (·.getStr?)
+    let cfg : Cfg := if (← boolF j "default_cfg") then .defaultR else .custom handled
+    let o := renderOutcome (← boolF j "sql") cfg kind (← boolF j "attached") unset
+    pure (Json.mkObj [("ok", match o with
+      | .marker => "marker" | .empty => "empty" | .defaultText => "default"
+      | .attributeMissing => "lib:AttributeMissingError"
+      | .unknownDatabase => "lib:UnknownDatabaseError")])
+  | "ref" =>
+    let a ← sideOf j "a"
+    let b ← sideOf j "b"
+    let m2m ← boolF j "m2m"
+    let inl ← boolF j "inline"
+    pure (Json.mkObj [("sql", encRefOut (refSql m2m a b)), ("dbml", encRefOut (refDbml inl a b)),
+                      ("table1", encRefOut (tableProp a b))])
+  | "get_refs" =>
+    let enc : RefsOut → Json := fun
+      | .ok => "ok" | .unknownDatabase => "lib:UnknownDatabaseError" | .tableNotFound => "lib:TableNotFoundError"
+    pure (Json.mkObj [("table", enc (tableGetRefs (← boolF j "table_has_db"))),
+                      ("column", enc (columnGetRefs (← boolF j "has_table") (← boolF j "table_has_db")))])
+  | _ => throw s!"dispatch {what}"
+
 def handle (j : Json) : Except String Json := do
   let op ← (← j.getObjVal? "op").getStr?
   match op with
@@ -70,6 +112,7 @@ def handle (j : Json) : Except String Json := do
     let d ← Codec.db (← j.getObjVal? "db")
     pure (Json.mkObj [("refs", .arr (d.refs.map fun r => encR (Sql.renderRefTop d r)).toArray)])
   | "hist" => Cont.runHist j
+  | "dispatch" => dispatchOp j
   | "reorder" =>
     let d ← Codec.db (← j.getObjVal? "db")
     pure (Json.mkObj [("ok", jnats (Sql.reorderIdx d.tables d.refs))])
